@@ -377,7 +377,12 @@ class NodeResolver(TreeResolver):
         ref = node.get('type', Namespace.xsins)
         if ref is None:
             return None
-        qref = qualify(ref, node, node.namespace())
+        # An unprefixed QName value denotes the default namespace in scope,
+        # which is not the node's own namespace when the node is prefixed.
+        defns = node.defaultNamespace()
+        if defns[1] is None:
+            defns = node.namespace()
+        qref = qualify(ref, node, defns)
         query = BlindQuery(qref)
         return query.execute(self.schema)
 
